@@ -67,3 +67,85 @@ def rel_close(a: Fraction, b: Fraction, scale: Fraction, rel: Fraction) -> bool:
 
 def index_rows(txs: List[model.Tx]) -> Dict[int, model.Tx]:
     return {t.row: t for t in txs}
+
+
+def account_of_debit(row: Dict[str, Any]) -> Tuple[str, str]:
+    if row["table"] == "intra":
+        return (row["from_ex"], row["from_ho"])
+    return (row["ex"], row["ho"])
+
+
+def end_of_instant_balance(txs: List[model.Tx], account: Tuple[str, str], us: int) -> Fraction:
+    bal = Fraction(0)
+    for t in txs:
+        if t.us > us:
+            continue
+        if t.table == "in" and (t.ex, t.ho) == account:
+            bal += t.crypto_in
+        elif t.table == "out" and (t.ex, t.ho) == account:
+            bal -= t.out + t.fee
+        elif t.table == "intra":
+            if (t.from_ex, t.from_ho) == account:
+                bal -= t.sent
+            if (t.to_ex, t.to_ho) == account:
+                bal += t.received
+    return bal
+
+
+@st.composite
+def inject_overdraft(draw: Any, case: Dict[str, Any], depths: Tuple[str, ...] = ("0.00000000001", "0.00000000009", "0.0000000002", "0.000000001", "3")) -> Optional[Dict[str, Any]]:
+    """Enlarge one debit so that its account ends that instant at -depth; optionally refill later.  Returns a description
+    of what was done (or None when the history has no debit)."""
+    rows = case["rows"]
+    txs = model.make_txs(rows)
+    targets = [i for i, r in enumerate(rows) if r["row"] >= 0 and r["table"] in ("out", "intra")]
+    if not targets:
+        return None
+    i = draw(st.sampled_from(targets))
+    row = dict(rows[i])
+    account = account_of_debit(row)
+    depth = model.F(draw(st.sampled_from(depths)))
+    extra = end_of_instant_balance(txs, account, txs[i].us) + depth
+    if extra <= 0:
+        return None
+    if row["table"] == "out":
+        field = "fee" if row["type"] == "fee" else "out"
+        row[field] = gen._frac_to_str(model.F(row[field]) + extra)
+        if "out_with_fee" in row:
+            row["out_with_fee"] = gen._frac_to_str(model.F(row["out"]) + model.F(row["fee"]))
+    else:
+        row["sent"] = gen._frac_to_str(model.F(row["sent"]) + extra)
+        row["received"] = gen._frac_to_str(model.F(row["received"]) + extra)
+    rows[i] = row
+    info = {"row": row["row"], "account": list(account), "depth": str(depth), "refilled": False}
+    if draw(st.booleans()):
+        last = max(t.us for t in txs)
+        rows.append(
+            {
+                "table": "in",
+                "row": max(t.row for t in txs) + 1,
+                "ts": model.fmt_ts(last + draw(st.integers(1, 300)) * gen.DAY_US, txs[-1].off),
+                "ex": account[0],
+                "ho": account[1],
+                "type": "buy",
+                "price": "10",
+                "crypto_in": gen._frac_to_str(extra * 3 + 1000),
+                "uid": "refill",
+            }
+        )
+        info["refilled"] = True
+    return info
+
+
+@st.composite
+def permute_row_numbers(draw: Any, case: Dict[str, Any]) -> None:
+    """Renumber the (non-artificial) rows with a random permutation, so that sheet order != chronological order."""
+    rows = case["rows"]
+    positive = [r["row"] for r in rows if r["row"] >= 0]
+    shuffled = draw(st.permutations(positive))
+    mapping = dict(zip(positive, shuffled))
+    for r in rows:
+        if r["row"] >= 0:
+            r["row"] = mapping[r["row"]]
+        if "artificial_for" in r:
+            r["artificial_for"] = mapping.get(r["artificial_for"], r["artificial_for"])
